@@ -221,7 +221,9 @@ class PIT(DNAS):
                 if isinstance(layer, PITModule) and hasattr(layer, 'following_bn_args'):
                     layer.following_bn_args = None  # type: ignore
 
+        seed_training = self.seed.training
         mod, _, _ = convert(self.seed, self._input_example, 'export')
+        self.seed.train(seed_training)
 
         return mod
 
